@@ -1,8 +1,8 @@
 package props
 
 import (
-	"github.com/robfig/soy/parse"
 	"fmt"
+	"github.com/robfig/soy/parse"
 	"os"
 	"runtime"
 	"strings"
@@ -25,6 +25,8 @@ type C18Case struct {
 	Bundles [][]string `json:"bundles,omitempty"`
 	// Burst: (replay of) the burst tier
 	Burst bool `json:"burst,omitempty"`
+	// Limit: (replay of) the nesting limit tier
+	Limit bool `json:"limit,omitempty"`
 }
 
 func scannerGoroutines() int {
@@ -129,6 +131,12 @@ func checkC18(c C18Case) Verdict {
 		}
 		return ok(true, "burst")
 	}
+	if c.Limit {
+		if err := c18Limit(); err != nil {
+			return bad(true, "%v", err)
+		}
+		return ok(true, "limit")
+	}
 	// goroutines leaked by an earlier (failing, being shrunk) case cannot be killed:
 	// judge this case relative to what is alive now
 	base := scannerGoroutines()
@@ -215,7 +223,84 @@ func c18Burst() error {
 	return nil
 }
 
+// The nesting limit tier: the parser refuses input that is nested deeper than a limit of its own. Where
+// exactly it gives up decides which of its parts are active at that moment (the scanner of the file, the
+// one of a quoted attribute value, a parser of an expression inside a tag). For each kind of block the
+// depth at which the refusal begins is searched, and every tail is parsed at the depths around it.
+func c18Limit() error {
+	type wrap struct{ open, close string }
+	wraps := []wrap{{"{if $x}", "{/if}"}, {"{foreach $a in $b}", "{/foreach}"}, {"{log}", "{/log}"}, {"{call .t}{param k}", "{/param}{/call}"}, {"{let $v}", "{/let}"}}
+	tails := []string{"text", "{$x.y}", "{call .u data=\"$x.y\"/}", "{call .u}{param k: $x.y /}{/call}", "{call .u}{param key=\"k\" value=\"$x.y\"/}{/call}", "{css $x.y, suffix}", "{css base}",
+		"{let $w: [1, [2, [$x.y]]] /}", "{msg desc=\"d\"}a {$x.y} b{/msg}", "{print $x.y |truncate: (1 + (2 * 3))}", "{call .u data=\"[1, [2, [3, [4]]]]\"/}", "{if $x.y}a{elseif ((($z)))}b{/if}", "{'unterminated}", "{call .u data=\"$x.\"/}"}
+	build := func(w wrap, d int, tail string) string {
+		return "{namespace a}\n/** */\n{template .x}\n" + strings.Repeat(w.open, d) + tail + strings.Repeat(w.close, d) + "\n{/template}\n"
+	}
+	for _, w := range wraps {
+		// what the parser says about d levels of this block around plain text: nothing (accepted), or the
+		// text of its refusal. The depths at which that changes are the ones where another part of the
+		// parser is the first to notice the nesting.
+		const top = 40000
+		memo := map[int]string{}
+		outcome := func(d int) string {
+			if o, seen := memo[d]; seen {
+				return o
+			}
+			var err error
+			catch(func() { _, err = parse.SoyFile("limit.soy", build(w, d, "text")) })
+			o := ""
+			if err != nil {
+				o = err.Error()
+			}
+			memo[d] = o
+			return o
+		}
+		var edges []int
+		var search func(lo, hi int)
+		search = func(lo, hi int) {
+			if outcome(lo) == outcome(hi) || len(edges) >= 4 {
+				return
+			}
+			if hi-lo == 1 {
+				edges = append(edges, hi)
+				return
+			}
+			mid := (lo + hi) / 2
+			search(lo, mid)
+			search(mid, hi)
+		}
+		search(1, top)
+		for _, hi := range edges {
+			for _, tail := range tails {
+				for d := hi - scale(2, 4); d <= hi+scale(1, 3); d++ {
+					if d < 1 {
+						continue
+					}
+					base := settle()
+					src := build(w, d, tail)
+					for rep := 0; rep < scale(1, 2); rep++ {
+						if !finishes(4*watchdogLimit(), func() { catch(func() { parse.SoyFile("limit.soy", src) }) }) {
+							fmt.Printf("INFRA: a parse did not return within the watchdog limit (property C05 decides that): %d levels of %s around %s\n", d, w.open, tail)
+							os.Exit(2)
+						}
+					}
+					if left := settleTo(base); left > base {
+						return fmt.Errorf("%d scanner goroutine(s) still alive after parses returned of a template with %s nested %d levels deep (what the parser says about this block changes at %d levels) around %s", left-base, w.open, d, hi, tail)
+					}
+				}
+			}
+		}
+	}
+	return nil
+}
+
 func TestC18(t *testing.T) {
+	if shard() == "1" && os.Getenv("VERIF_REPLAY") == "" && os.Getenv("VERIF_CORPUS_ONLY") == "" {
+		if err := c18Limit(); err != nil {
+			c := C18Case{Limit: true}
+			writeFail("C18", c, err)
+			t.Fatalf("nesting limit tier: %v", err)
+		}
+	}
 	if shard() == "0" && os.Getenv("VERIF_REPLAY") == "" && os.Getenv("VERIF_CORPUS_ONLY") == "" {
 		if err := c18Burst(); err != nil {
 			c := C18Case{Burst: true}
